@@ -61,20 +61,17 @@ def norm(d):
     return normalize_doc(d)
 
 
-@C.spec([('d', 'Obj')], 'Obj')
+@C.spec([('d', 'Obj')], 'Obj', opaque=True)
 def acc_flat(d):
-    """what the property FlatChoice.when_flat returns (normalised lazily, under the guard the code uses)"""
-    if d._broken_normalized and not d._flat_normalized:
-        return norm(d._when_flat)
-    return d._when_flat
+    """what the property FlatChoice.when_flat returns: the flat branch, or its normalisation (when it normalises is
+    the accessor's business: lemma_acc_cases is all the proofs use)"""
+    return d.when_flat
 
 
-@C.spec([('d', 'Obj')], 'Obj')
+@C.spec([('d', 'Obj')], 'Obj', opaque=True)
 def acc_broken(d):
-    """what the property FlatChoice.when_broken returns"""
-    if d.normalize_on_access and not d._broken_normalized:
-        return norm(d._when_broken)
-    return d._when_broken
+    """what the property FlatChoice.when_broken returns: the broken branch, or its normalisation"""
+    return d.when_broken
 
 
 @C.spec([('stack', 'Stack'), ('i', 'Int'), ('m', 'Mode'), ('ds', 'ObjList')], 'Stack')
@@ -152,7 +149,8 @@ def size(d):
     if isinstance(d, Annotated):
         return 3 + size(d.doc)
     if isinstance(d, FlatChoice):
-        return 1 + size(d._when_broken) + size(d._when_flat)
+        # the accessors may return the branch or its normalisation: the measure covers both
+        return 1 + max(size(d._when_broken), size(norm(d._when_broken))) + max(size(d._when_flat), size(norm(d._when_flat)))
     if isinstance(d, Contextual):
         return 2 + csize(d.fn)
     return 1
@@ -243,16 +241,27 @@ def fits(mw, smart, mnl, stack):
 # lemmas
 
 @C.lemma([('fn', 'CtxFn'), ('a', 'Int'), ('b', 'Int'), ('c', 'Int'), ('d', 'Int')],
-         ensures=['wf(apply_ctx(fn, a, b, c, d))', 'size(apply_ctx(fn, a, b, c, d)) <= csize(fn)', 'csize(fn) >= 0'],
+         ensures=['wf(apply_ctx(fn, a, b, c, d))', 'size(apply_ctx(fn, a, b, c, d)) <= csize(fn)',
+                  'size(norm(apply_ctx(fn, a, b, c, d))) <= csize(fn)', 'csize(fn) >= 0'],
          triggers=['apply_ctx(fn, a, b, c, d)'], trusted=True,
          note='user contextual functions are pure, return documents, and their results are bounded by a ghost weight')
 def lemma_apply_ctx(fn, a, b, c, d):
     pass
 
 
-@C.lemma([('d', 'Obj')], requires=['wf(d)'], ensures=['wf(norm(d))', 'size(norm(d)) <= size(d)'],
+@C.lemma([('d', 'Obj')],
+         ensures=['acc_flat(d) == d._when_flat or acc_flat(d) == norm(d._when_flat)',
+                  'acc_broken(d) == d._when_broken or acc_broken(d) == norm(d._when_broken)'],
+         triggers=['acc_flat(d)', 'acc_broken(d)'], trusted=True,
+         note='postcondition `cases` of the property getters FlatChoice.when_flat / when_broken, PROVED in family normalize')
+def lemma_acc_cases(d):
+    pass
+
+
+@C.lemma([('d', 'Obj')], requires=['wf(d)'], ensures=['wf(norm(d))'],
          triggers=['norm(d)'], trusted=True,
-         note='postconditions of normalize_doc (normalisation family, not yet proved): a document stays a document and does not grow')
+         note='postcondition `wf` of normalize_doc, PROVED in family normalize (normalize_doc/return/post:wf); restated here over norm(d), '
+              'the name of what normalize_doc returns')
 def lemma_norm_wf_size(d):
     pass
 
@@ -324,9 +333,8 @@ C.contract(DOCTYPES, 'normalize_doc',
            requires=['wf(doc)'],
            ensures=[('fn', 'result == norm(doc)')],
            trusted=True,
-           note='norm is by definition the function normalize_doc computes (determinism of a structural function over the '
-                'document value is assumed); its properties are the lemma group lemma_norm_* (trusted until the '
-                'normalisation family is proved)',
+           note='DEFINITION of the name norm: what normalize_doc returns (determinism of a structural function over the document '
+                'value is assumed); its properties (lemma_norm_*) are the postconditions proved in family normalize',
            serves=['C04', 'C05', 'C06', 'C12'])
 
 C.contract(DOCTYPES, 'FlatChoice.when_flat',
@@ -334,16 +342,15 @@ C.contract(DOCTYPES, 'FlatChoice.when_flat',
            requires=['isinstance(self, FlatChoice)', 'wf(self)'],
            ensures=[('fn', 'result == acc_flat(self)')],
            trusted=True,
-           note='reads the cache fields and normalises under the guard written in acc_flat; the mutation of the cache fields of '
-                'self is not modelled (value semantics): it replaces a branch by its normalisation, which every semantic function '
-                'used here is invariant under where the proofs need it (lemma_norm_*)',
+           note='PROVED in family normalize (FlatChoice.when_flat/return/post:fn). The mutation of the cache fields of self is not '
+                'modelled at call sites (documents are values there): it replaces a branch by its normalisation',
            serves=['C04', 'C05', 'C06', 'C12'])
 
 C.contract(DOCTYPES, 'FlatChoice.when_broken',
            params={'self': 'Obj'}, returns='Obj',
            requires=['isinstance(self, FlatChoice)', 'wf(self)'],
            ensures=[('fn', 'result == acc_broken(self)')],
-           trusted=True, note='see FlatChoice.when_flat', serves=['C04', 'C05', 'C06', 'C12'])
+           trusted=True, note='PROVED in family normalize (FlatChoice.when_broken/return/post:fn)', serves=['C04', 'C05', 'C06', 'C12'])
 
 U.attr_hooks = {
     ('Obj', 'when_flat'): lambda I, base: I.call_contract(C.fns[DOCTYPES + ':FlatChoice.when_flat'], [base], {}, None),
